@@ -111,6 +111,14 @@ impl World {
                 if !(r == r2) || hash_of(&r) != hash_of(&r2) {
                     self.notes.push("two ReprCStr of the same text are unequal or hash differently".into());
                 }
+                // a text and a proper extension of it are different strings
+                let mut longer = text.clone();
+                longer.push(b'a');
+                let c3 = std::ffi::CString::new(longer).unwrap();
+                let r3 = ReprCStr::from(c3.as_c_str());
+                if r == r3 || r3 == r {
+                    self.notes.push("a ReprCStr compares equal to a proper extension of its text".into());
+                }
                 self.obs = json!({"kind":"cstr","text":jbytes(&text),"flag":false});
             }
             _ => {
